@@ -5,6 +5,7 @@ Spec: specs/iset/ISet.tla, ISetMC (graph), ISetTrace.
 import json
 import os
 import random
+import sys
 import time
 
 from harness import core
@@ -26,6 +27,30 @@ def bounds(n):
     return list(range(-n - 1, n + 2)) + [None]
 
 
+class Idx:
+    """an integer-like slice bound (anything with __index__ is accepted by list slicing)"""
+    def __init__(self, v):
+        self.v = v
+
+    def __index__(self):
+        return self.v
+
+
+def spell(v, n, r):
+    """another spelling of the slice bound v for a sequence of n items that a list treats exactly like v: a bound past
+    either end is as good as any bound further out (beyond the machine word too), and every bound may be an object with
+    __index__. r in [0, 1) picks."""
+    if v is None:
+        return None
+    if v >= n and r < 0.3:
+        return [2 ** 63, sys.maxsize, 10 ** 30, sys.maxsize + 1][int(r * 40) % 4]
+    if v <= -n and r < 0.3:
+        return [-2 ** 63, -sys.maxsize - 1, -10 ** 30, -sys.maxsize - 2][int(r * 40) % 4]
+    if r > 0.8:
+        return Idx(v)
+    return v
+
+
 class Driver(GenericAdapter):
     subject = "setutils.IndexedSet"
 
@@ -35,7 +60,7 @@ class Driver(GenericAdapter):
         # item 2999 is of another type than all the others (it cannot be ordered against them): with it present sort() fails
         self.K = lambda i: frozenset(["odd-one-out"]) if i == ODD_ITEM else base_k(i)
         self.U = U
-        self._tab = {self.K(i): i for i in range(1, 3000)}
+        self._tab = {self.K(i): i for i in range(1, 4100)}
         from boltons.setutils import IndexedSet
         self.cls = IndexedSet
 
@@ -231,7 +256,8 @@ class Driver(GenericAdapter):
             for a in bs:
                 for b in bs:
                     for k in (None, 1, 2, 3):
-                        part = s[a:b:k]
+                        h_ = (hash((a, b, k, n)) % 1000) / 1000.0
+                        part = s[spell(a, n, h_):spell(b, n, (h_ * 7) % 1):(Idx(k) if k and h_ > 0.9 else k)]
                         if type(part) is not self.cls:
                             wf = "slice-type"
                         sl.append([dec(e) for e in part])
@@ -274,7 +300,7 @@ def reads(s, rng, drv, nitems, last_added, want_full):
             b = rng.choice([None, rng.randint(-n - 1, n + 1)])
             k_ = rng.choice([None, 1, 1, 2, 3, 7])
             ev["slices"].append([[NONE if a is None else a, NONE if b is None else b, NONE if k_ is None else k_],
-                                 [dec(e) for e in s[a:b:k_]]])
+                                 [dec(e) for e in s[spell(a, n, rng.random()):spell(b, n, rng.random()):k_]]])
         if want_full:
             ev["hasfull"] = True
             ev["full"] = [dec(e) for e in s]
@@ -299,14 +325,23 @@ def record(ntraces, length, seed, nitems):
         queue = []           # scripted follow-up operations (runs of adjacent removals, tail pops, re-adds)
         last_added = 1
         twin, twin_age = None, 0
+        phase_left = rng.randint(40, 200)
+        prefill = t % 2 == 1
         for i in range(length):
             n = len(s)
-            if n > nitems * 0.8:
-                phase = rng.choice(["shrink", "shrink-front", "shrink-back", "churn"])
-            elif n < nitems * 0.15:
+            # phases follow a schedule (sizes alone never left the first one: growth by random picks saturates early)
+            phase_left -= 1
+            if phase_left <= 0:
+                phase = rng.choice(["grow", "shrink", "shrink-front", "shrink-back", "churn", "churn"])
+                phase_left = rng.randint(60, 260)
+            if n < 6:
                 phase = "grow"
             c = rng.random()
             op = {"op": "add", "x": 0, "ops": []}
+            if prefill and i == 0:
+                # every other history starts from a well filled set (one bulk update), so that the removal phases work on
+                # hundreds of items
+                queue.append({"op": "update", "x": 0, "ops": [rng.sample(range(1, nitems + 1), int(nitems * 0.7))]})
             if not queue and n >= 8 and rng.random() < 0.08:
                 # deletion patterns the dead-index table is sensitive to: a run of adjacent positions removed in
                 # descending or ascending order (anywhere, near the front, near the back), then the tail, then new items
@@ -428,6 +463,45 @@ def record(ntraces, length, seed, nitems):
     return traces
 
 
+def record_compaction(seed, conc="int"):
+    """One long-hole history at real size: thousands of items, every 9th removed (more than 384 separate dead intervals
+    while they are still few against the whole: the table-length trigger of the compaction, not the ratio one), then the
+    tail and the front trimmed, new items, and reads all along."""
+    rng = random.Random(seed)
+    drv = Driver(conc, 1)
+    s = drv.fresh(None)
+    K, dec = drv.K, drv.dec
+    nitems = 3990
+    evs = []
+
+    def do(op, full=False, sparse=True):
+        nonlocal s
+        variant = drv.variants(op)[0]
+        args = drv.build_args(op, variant)
+        op["ops"] = [[dec(e) for e in a] for a in args]
+        s, got = drv.step(s, op, variant, args=args)
+        ev = {"op": op, "variant": variant or "", "r": got["r"], "fork": False, "hastwin": False, "twin": dict(EMPTY_READS), "pure": False}
+        ev.update(reads(s, rng, drv, nitems, 1, full) if (full or not sparse or rng.random() < 0.1) else
+                  dict(EMPTY_READS, len=len(s)))
+        evs.append(ev)
+    drv.trace_mode = True
+    order = [x for x in range(1, nitems + 1) if x != ODD_ITEM]
+    do({"op": "update", "x": 0, "ops": [order]}, full=True)
+    # every 10th item: 399 separate holes in 3989 slots - the 385th interval comes while the dead are still fewer than an
+    # eighth of the slots, so it is the table length that triggers the compaction
+    victims = order[5::10]
+    for x in victims:
+        do({"op": "remove", "x": x, "ops": []})
+    do({"op": "discard", "x": 1, "ops": []}, full=True)
+    for x in order[2::27][:80]:
+        do({"op": "remove" if K(x) in s else "discard", "x": x, "ops": []})
+    do({"op": "add", "x": 1, "ops": []}, full=True)
+    for _ in range(30):
+        do({"op": "pop", "x": rng.choice([NONE, 0, -1, len(s) // 2]), "ops": []}, sparse=False)
+    do({"op": "add", "x": 2, "ops": []}, full=True)
+    return [{"conc": drv.name, "nitems": nitems, "ev": evs}]
+
+
 def impl_shape(stats, thorough, seed):
     """ISetDead.tla: the tombstone / dead-interval mechanism, model-checked for every history within its bounds (with the
     pre-repair trimming as negative control), then bound to the code's private state when that still has this shape.
@@ -512,6 +586,9 @@ def main(tier, seed):
     canary(stats)
     traces = record(16, 1500, seed, 600) + record(16, 400, seed + 1, 40) if not thorough else \
         record(48, 6000, seed, 600) + record(32, 2000, seed + 1, 60) + record(8, 20000, seed + 2, 2500)
+    traces += record_compaction(seed)
+    if thorough:
+        traces += record_compaction(seed + 1, "str")
     if shape != "conforms":
         # the list side is no longer the mechanism that was model-checked: widen the behavioural exploration
         traces += record(32, 1500, seed + 7, 600) + record(16, 1500, seed + 8, 120)
